@@ -266,6 +266,9 @@ class CSim:
         """returns (out, messages)"""
         s, c = self.sim, self.clib
         k = op[0]
+        EXERCISED.update({"add": ["reb_simulation_add"], "rm": ["reb_simulation_remove_particle"], "rmh": ["reb_simulation_remove_particle_by_hash"],
+                          "get": ["reb_simulation_particle_by_hash"], "rmall": ["reb_simulation_remove_all_particles"],
+                          "tupd": ["reb_simulation_update_tree"], "addvar": ["reb_simulation_add_variation_1st_order"]}.get(k, []))
         rc = None
         if k == "add":
             c.reb_simulation_add(ctypes.byref(s), self.mk(op[1], op[2], op[3]))
@@ -344,6 +347,10 @@ class PySim(CSim):
         import warnings
         if op[0] in ("tupd", "istep"):
             return CSim.apply(self, op)          # no container-level API for these
+        EXERCISED.update({"add": ["Simulation.add", "reb_simulation_add"], "rm": ["Simulation.remove", "reb_simulation_remove_particle"],
+                          "rmh": ["Simulation.remove", "reb_simulation_remove_particle_by_hash"],
+                          "get": ["Particles.__getitem__", "reb_simulation_particle_by_hash"], "rmall": ["Simulation.particles", "reb_simulation_remove_all_particles"],
+                          "sethash": ["Particles.__getitem__"], "addvar": ["Simulation.add_variation"]}.get(op[0], []))
         if op[0] == "addvar":
             import warnings as _w
             with _w.catch_warnings():
@@ -570,6 +577,19 @@ def mercurius_probe(c, rebound):
 
 
 # ----------------------------------------------------------------------------- history generator
+def cfg_case(cfg, python_api):
+    b = cfg["bulk"]
+    bc = "0" if b == 0 else "lt128" if b < 128 else "gt128" if b < 256 else "gt256" if b < 512 else "gt512" if b < 1024 else "gt1024"
+    return dict(api="python" if python_api else "C", tree=cfg["tree"], box=int(bool(cfg["box"])), boundary=cfg["boundary"],
+                integrator=cfg["integrator"] if cfg["integrator"] in ("ias15", "whfast", "leapfrog", "mercurius", "trace") else "ias15",
+                hashes=cfg["hashes"], malformed=int(bool(cfg["malformed"])), use_active=int(bool(cfg["use_active"])), bulk=bc)
+
+
+def case_cfg(case, rng):
+    return dict(tree=case["tree"], box=bool(case["box"]), boundary=case["boundary"], integrator=case["integrator"], hashes=case["hashes"],
+                malformed=bool(case["malformed"]), use_active=bool(case["use_active"]), bulk=rng.choice(BULK_CLASS[case["bulk"]]))
+
+
 def gen_cfg(rng, python_api=False):
     tree = rng.choice(["none", "none", "none", "gravity", "collision", "linetree"])
     box = True if tree != "none" else rng.chance(0.3)
@@ -695,8 +715,58 @@ def infer_visit(before, after):
     return None
 
 
+def call_shape_ops(case):
+    """the operations of one cell of the call-shape factorial: build the state, issue the request, then add + look up"""
+    n = case["N"]
+    ops = [("add", i + 1, 1000 + i, 0) for i in range(n)]
+    if case["nact"] == "lt":
+        ops.append(("setactive", n - 1))
+    elif case["nact"] == "eq":
+        ops.append(("setactive", n))
+    if case["nvar"]:
+        ops.append(("setnvar", 1))
+    o = case["op"]
+    ops.append({"add": ("add", 50, 1050, 0), "rm_valid_sorted": ("rm", n // 2, 1), "rm_valid_unsorted": ("rm", n // 2, 0),
+                "rm_neg": ("rm", -1, 1), "rm_big": ("rm", n + 2, 0), "rmh_present_sorted": ("rmh", 1000 + n - 1, 1),
+                "rmh_present_unsorted": ("rmh", 1000, 0), "rmh_absent": ("rmh", 77, 1), "get_present": ("get", 1000),
+                "get_absent": ("get", 77), "sethash": ("sethash", n - 1, 4242), "rmall": ("rmall",), "tupd": ("tupd", None)}[o])
+    if case["nvar"]:
+        ops.append(("setnvar", 0))
+    ops += [("add", 900, 1900, 0), ("get", 1900)]
+    if case["tree"]:
+        ops.append(("tupd", None))
+    ops.append(("get", 1000))
+    return ops
+
+
+def run_call_shapes(c, rebound, stats, lines, expect, meta):
+    """full factorial of the factors closest to the mechanism (API x tree x hybrid integrator x N_active x N x N_var x request):
+    every admissible cell in the thorough tier, a seed-rotated quarter in the quick tier"""
+    G = PAIRS.groups["call_shape"]
+    names = list(G["factors"])
+    cells = [{}]
+    for f in names:
+        cells = [dict(k, **{f: v}) for k in cells for v in G["factors"][f]]
+    cells = [k for k in cells if PAIRS.admissible("call_shape", k)]
+    total = len(cells)
+    if not c.thorough:
+        cells = [k for i, k in enumerate(cells) if i % 4 == c.seed % 4]
+    n = 0
+    for i, case in enumerate(cells):
+        if case["op"] == "rmall" and case["tree"] and not RESET_TREE:
+            continue
+        cfg = dict(tree="collision" if case["tree"] else "none", box=bool(case["tree"]), boundary="none",
+                   integrator=case["forced"] if case["forced"] != "none" else "ias15", hashes="unique", malformed=False,
+                   use_active=True, bulk=0)
+        ops = call_shape_ops(case)
+        run_history(c, rebound, cfg, len(ops), case["api"] == "python", stats, lines, expect, meta, 300000 + i, fixed_ops=ops, note_cfg=False)
+        PAIRS.note("call_shape", case)
+        n += 1
+    c.cov["call_shape_cells"] = {"admissible": total, "run": n}
+
+
 # ----------------------------------------------------------------------------- one history on the real code + oracle
-def run_history(c, rebound, cfg, nops, python_api, stats, lines, expect, meta, hid, fixed_ops=None):
+def run_history(c, rebound, cfg, nops, python_api, stats, lines, expect, meta, hid, fixed_ops=None, note_cfg=True):
     rng = c.rng.fork()
     sim = (PySim if python_api else CSim)(rebound, cfg)
     ref = Ref(cfg)
@@ -708,6 +778,9 @@ def run_history(c, rebound, cfg, nops, python_api, stats, lines, expect, meta, h
     expect.append(fmt_state("done", st))
     meta.append((hid, -1, ("new",), cfg))
     history = []
+    prev_kind = None
+    if note_cfg:
+        PAIRS.note("tie_config", cfg_case(cfg, python_api))
     python_api_skip_cb = False
     sim.freed[:] = []
     progress({"history": hid, "python_api": python_api, "cfg": cfg})
@@ -717,10 +790,24 @@ def run_history(c, rebound, cfg, nops, python_api, stats, lines, expect, meta, h
             op = fixed_ops[step_i]
         else:
             op = gen.add_op(st) if step_i < cfg["bulk"] else gen.next_op(st)
-        if python_api and op[0] == "setnvar":
+        if python_api and op[0] == "setnvar" and fixed_ops is None:
             op = gen.add_op(st)
         history.append(op)
         progress({"op": op})
+        if prev_kind is not None:
+            PAIRS.note("event_adjacency", {"op_at_s": prev_kind, "op_at_s_plus_1": op[0]})
+        prev_kind = op[0]
+        if fixed_ops is None and step_i < cfg["bulk"] - 1 and cfg["bulk"] > 300:
+            # long bulk starts: the adds are executed and fed to the model, the full observation is taken at the end of the bulk
+            sim.apply(op); ref.add(op[1], op[2], op[3]); sim.freed[:] = []
+            lines.append(model_line(op, st)); expect.append("*"); meta.append((hid, step_i, op, None))
+            stats["ops"][op[0]] = stats["ops"].get(op[0], 0) + 1
+            c.count(None, nontrivial=False)
+            if step_i == cfg["bulk"] - 2:
+                st = sim.state(); st["forced"] = ref.forced
+                ref.tree_root = bool(st["troot"])
+                ref.ps = [list(q_) for q_ in st["ps"]]
+            continue
         shape = shape_of(op, st)
         before = st
         out, msgs = sim.apply(op)
@@ -979,6 +1066,295 @@ class MemReplay:
                     out=q.stdout.splitlines())
 
 
+# ----------------------------------------------------------------------------- pairwise coverage of explicit factors
+class PairCov:
+    """explicit factors with finite value sets per generator group; which pairs of values were generated"""
+
+    def __init__(self):
+        self.groups = {}
+
+    def declare(self, group, factors, excluded=None, why=None):
+        """factors: {name: [values]}; excluded(f, a, g, b) -> reason string or None (symmetric use: called with f < g in
+        declaration order)"""
+        self.groups[group] = dict(factors=factors, excluded=excluded or (lambda f, a, g, b: None), seen=set(), cases=0, why=why or {})
+
+    def admissible(self, group, case):
+        G = self.groups[group]
+        names = list(G["factors"])
+        for i, f in enumerate(names):
+            for g in names[i + 1:]:
+                if f in case and g in case and G["excluded"](f, case[f], g, case[g]):
+                    return False
+        return True
+
+    def note(self, group, case):
+        G = self.groups[group]
+        names = [f for f in G["factors"] if f in case]
+        G["cases"] += 1
+        for i, f in enumerate(names):
+            for g in names[i + 1:]:
+                G["seen"].add((f, case[f], g, case[g]))
+
+    def array(self, group, rng, ncand=120, extra_ok=None):
+        """greedy all-pairs covering array: repeatedly take, out of `ncand` random admissible candidates, the case that covers
+        most pairs not covered yet"""
+        G = self.groups[group]
+        names = list(G["factors"])
+        need = set()
+        for i, f in enumerate(names):
+            for g in names[i + 1:]:
+                for a in G["factors"][f]:
+                    for b in G["factors"][g]:
+                        if not G["excluded"](f, a, g, b):
+                            need.add((f, a, g, b))
+        rows = []
+        stall = 0
+        while need and stall < 6:
+            best, bestn = None, 0
+            for _ in range(ncand):
+                case = {f: rng.choice(G["factors"][f]) for f in names}
+                if not self.admissible(group, case) or (extra_ok and not extra_ok(case)):
+                    continue
+                n = sum(1 for i, f in enumerate(names) for g in names[i + 1:] if (f, case[f], g, case[g]) in need)
+                if n > bestn:
+                    best, bestn = case, n
+            if best is None:
+                stall += 1
+                continue
+            stall = 0
+            rows.append(best)
+            for i, f in enumerate(names):
+                for g in names[i + 1:]:
+                    need.discard((f, best[f], g, best[g]))
+        return rows
+
+    def summary(self):
+        out, covered, total, excluded, missing = {}, 0, 0, 0, []
+        for gname, G in self.groups.items():
+            names = list(G["factors"])
+            gc = gt = ge = 0
+            for i, f in enumerate(names):
+                for g in names[i + 1:]:
+                    for a in G["factors"][f]:
+                        for b in G["factors"][g]:
+                            if G["excluded"](f, a, g, b):
+                                ge += 1
+                                continue
+                            gt += 1
+                            if (f, a, g, b) in G["seen"]:
+                                gc += 1
+                            elif len(missing) < 25:
+                                missing.append([gname, f, a, g, b])
+            out[gname] = {"covered": gc, "total": gt, "excluded": ge, "cases": G["cases"], "factors": {f: len(v) for f, v in G["factors"].items()}}
+            covered += gc; total += gt; excluded += ge
+        return dict(covered=covered, total=total, excluded=excluded, groups=out, missing=missing)
+
+
+PAIRS = PairCov()
+BULK_CLASS = {"0": [0], "lt128": [126, 127], "gt128": [130], "gt256": [254, 258], "gt512": [520], "gt1024": [1030]}
+
+
+def declare_factors():
+    def ex_cfg(f, a, g, b):
+        v = {f: a, g: b}
+        if v.get("boundary") == "open" and v.get("box") == 0:
+            return "an open boundary needs a configured box"
+        if v.get("api") == "python" and v.get("bulk") in ("gt512", "gt1024"):
+            return "bulk starts above 512 are run through the C API only (time)"
+        if v.get("tree") == "none" and "box" not in v and False:
+            return None
+        return None
+    PAIRS.declare("tie_config", dict(api=["C", "python"], tree=["none", "gravity", "collision", "linetree"], box=[0, 1],
+                                     boundary=["none", "open"], integrator=["ias15", "whfast", "leapfrog", "mercurius", "trace"],
+                                     hashes=["unique", "dups", "zeros", "mixed"], malformed=[0, 1], use_active=[0, 1],
+                                     bulk=list(BULK_CLASS)), ex_cfg)
+
+    def ex_shape(f, a, g, b):
+        v = {f: a, g: b}
+        n, op = v.get("N"), v.get("op")
+        if v.get("nact") == "lt" and n == 0:
+            return "0 <= N_active < N needs N >= 1"
+        if n == 0 and op in ("rm_valid_sorted", "rm_valid_unsorted", "rmh_present_sorted", "rmh_present_unsorted", "get_present", "sethash"):
+            return "no valid target in an empty simulation"
+        if op == "tupd" and v.get("tree") == 0:
+            return "a tree update needs a tree"
+        if v.get("nvar") == 1 and v.get("api") == "python":
+            return "N_var is written through the C-level histories only"
+        if v.get("nvar") == 1 and n == 0:
+            return "N_var <= N"
+        return None
+    PAIRS.declare("call_shape", dict(api=["C", "python"], tree=[0, 1], forced=["none", "mercurius", "trace"], nact=["unset", "lt", "eq"],
+                                     N=[0, 1, 2, 3], nvar=[0, 1],
+                                     op=["add", "rm_valid_sorted", "rm_valid_unsorted", "rm_neg", "rm_big", "rmh_present_sorted",
+                                         "rmh_present_unsorted", "rmh_absent", "get_present", "get_absent", "sethash", "rmall", "tupd"]), ex_shape)
+
+    kinds = ["add", "rm", "rmh", "get", "sethash", "setactive", "setnvar", "rmall", "tupd", "istep", "addvar"]
+    def ex_adj(f, a, g, b):
+        tree_only, notree_only = {"tupd"}, {"istep", "addvar", "setnvar"}
+        if (a in tree_only and b in notree_only) or (b in tree_only and a in notree_only):
+            return "tree update needs a tree; MERCURIUS steps / variations / N_var writes are generated without a tree"
+        if "istep" in (a, b) and ("addvar" in (a, b) or "setnvar" in (a, b)):
+            return "MERCURIUS refuses to step with variational particles"
+        if (a, b) == ("addvar", "addvar") or (a == "istep" and b == "istep" and False):
+            return "a second add_variation needs N_var == 0 again"
+        return None
+    PAIRS.declare("event_adjacency", dict(op_at_s=kinds, op_at_s_plus_1=kinds), ex_adj)
+
+    def ex_step(f, a, g, b):
+        v = {f: a, g: b}
+        if v.get("integrator") == "none" and v.get("variant", "default") != "default":
+            return "the options are not read without an integrator"
+        if v.get("integrator") == "none" and v.get("event") == "merge_midstep_add":
+            return None
+        return None
+    PAIRS.declare("step_history", dict(integrator=list(INTEGRATORS), variant=["default", "safe_mode0", "negative_dt", "testparticle_type1"],
+                                       nactive=["unset", "set"], massless=[0, 1]), ex_step)
+    PAIRS.declare("step_adjacency", dict(integrator=list(INTEGRATORS), op_before_step=["add", "rm_sorted", "rm_unsorted", "rmh", "invalid", "rmall", "set_nactive"]))
+
+    def ex_int(f, a, g, b):
+        v = {f: a, g: b}
+        if v.get("integrator") in ("mercurius", "trace") and v.get("search") in ("tree", "linetree"):
+            return "hybrid integrators force keep_sorted, a tree refuses sorted removal: every merge is refused (documented error)"
+        if v.get("search") == "boundary_open" and v.get("resolver", "merge") != "merge":
+            return "no collision search, the resolver is never called"
+        if v.get("integrator") == "janus" and False:
+            return None
+        return None
+    PAIRS.declare("internal_removal", dict(integrator=["ias15", "leapfrog", "whfast", "mercurius", "trace", "bs"],
+                                           search=["direct", "line", "tree", "linetree", "boundary_open"], keep_sorted=[0, 1],
+                                           resolver=["merge", "merge_addfrag", "addfrag_merge"], nactive=["unset", "set"], track_energy=[0, 1]), ex_int)
+
+
+# ----------------------------------------------------------------------------- public entry points that reach the mechanism
+ENTRY_RE = r"reb_simulation_(?:add(?:_fmt|_plummer|_variation_\w+)?|remove_\w+|particle_by_hash\w*|particle_index|init_megno\w*|update_tree|[gs]et_serialized_particle_data)|reb_hash"
+EXERCISED = set()
+
+
+def extract_entry_points():
+    """C: DLLEXPORT functions of src/rebound.h whose name says they add / remove / look up particles, hash names or re-index
+    them; Python: the methods of rebound/*.py that call one of those (by source), the container class, rebound.hash"""
+    import re
+    hdr = open(os.path.join(REPO, "src", "rebound.h")).read()
+    cfun = sorted(set(m for m in re.findall(r"^DLLEXPORT[^;(]*?\b(\w+)\s*\(", hdr, flags=re.M) if re.fullmatch(ENTRY_RE, m)))
+    py = set()
+    for fn in ("simulation.py", "particle.py", "particles.py", "hash.py"):
+        src = open(os.path.join(REPO, "rebound", fn)).read()
+        cls = None
+        blocks = re.split(r"^(?=(?:class |    def |def ))", src, flags=re.M)
+        for b in blocks:
+            mc = re.match(r"class (\w+)", b)
+            if mc:
+                cls = mc.group(1)
+                continue
+            md = re.match(r"(    )?def (\w+)", b)
+            if not md:
+                continue
+            name = (cls + "." if (md.group(1) and cls) else "") + md.group(2)
+            if fn == "particles.py" and md.group(2).startswith("__") and md.group(2) != "__init__":
+                py.add(name)
+            elif re.search(r"clibrebound\.(" + ENTRY_RE + r")\b", b) and fn != "units.py" and md.group(2) not in ("units", "convert_particle_units"):
+                py.add(name)
+    return cfun, sorted(py)
+
+
+def entry_point_smoke(c, rebound, mr, dims):
+    """the entry points no generated history goes through, each with the lookup oracle"""
+    import numpy as np, warnings
+    clib = rebound.clibrebound
+    with warnings.catch_warnings():
+        warnings.simplefilter("ignore")
+        sim = rebound.Simulation()
+        for i in range(5):
+            sim.add(m=float(i + 1), x=float(i), vy=0.1 * i, hash=500 + i)
+        _ = sim.particles[ctypes.c_uint32(502)]                      # table built
+        # reb_simulation_particle_by_hash_mpi: a copy of the particle, or the NaN particle
+        clib.reb_simulation_particle_by_hash_mpi.restype = rebound.Particle
+        q = clib.reb_simulation_particle_by_hash_mpi(ctypes.byref(sim), ctypes.c_uint32(503)); EXERCISED.add("reb_simulation_particle_by_hash_mpi")
+        q2 = clib.reb_simulation_particle_by_hash_mpi(ctypes.byref(sim), ctypes.c_uint32(77))
+        if int(q.m) != 4 or q2.m == q2.m:
+            c.violation("C14:entry:particle_by_hash_mpi", "reb_simulation_particle_by_hash_mpi(503) has m=%r, (77) has m=%r (expected 4 and NaN)" % (q.m, q2.m), {})
+        # reb_simulation_particle_index / Particle.index
+        clib.reb_simulation_particle_index.restype = ctypes.c_int
+        for i in range(5):
+            if clib.reb_simulation_particle_index(ctypes.byref(sim.particles[i])) != i or sim.particles[i].index != i:
+                c.violation("C14:entry:particle_index", "reb_simulation_particle_index of particle %d" % i, {})
+        EXERCISED.update(["reb_simulation_particle_index", "Particle.index"])
+        # set / get serialized particle data: hashes rewritten behind the (now stale) table
+        newh = np.array([900, 901, 902, 903, 904], dtype=np.uint32)
+        sim.set_serialized_particle_data(hash=newh); EXERCISED.update(["reb_simulation_set_serialized_particle_data", "Simulation.set_serialized_particle_data"])
+        got = np.zeros(5, dtype=np.uint32); sim.serialize_particle_data(hash=got)
+        EXERCISED.update(["reb_simulation_get_serialized_particle_data", "Simulation.serialize_particle_data"])
+        ok = list(got) == list(newh) and all(int(sim.particles[ctypes.c_uint32(900 + i)].m) == i + 1 for i in range(5))
+        try:
+            sim.particles[ctypes.c_uint32(502)]
+            ok = False
+        except rebound.ParticleNotFound:
+            pass
+        if not ok:
+            c.violation("C14:entry:set_serialized_particle_data", "after set_serialized_particle_data(hash=…) the lookups do not follow the new hashes", {})
+        sim.remove(hash=901); sim.add(m=9.0, x=9.0, hash=901)
+        if [int(p.m) for p in sim.particles] != [1, 3, 4, 5, 9] or int(sim.particles[ctypes.c_uint32(901)].m) != 9:
+            c.violation("C14:entry:set_serialized_particle_data", "remove/add by a hash assigned through set_serialized_particle_data", {})
+        # variations of both orders and MEGNO: N, N_var, refusal of removals, lookups of the real particles
+        sim = rebound.Simulation()
+        for i in range(3):
+            sim.add(m=1.0 if i == 0 else 1e-3, x=float(i), vy=(1.0 / i ** 0.5 if i else 0.0), hash=600 + i)
+        v1 = sim.add_variation(); v1b = sim.add_variation(); v2 = sim.add_variation(order=2, first_order=v1, first_order_2=v1b)
+        EXERCISED.update(["reb_simulation_add_variation_1st_order", "reb_simulation_add_variation_2nd_order", "Simulation.add_variation"])
+        okv = sim.N == 12 and sim.N_var == 9 and sim.N_real == 3 and all(int(round(sim.particles[ctypes.c_uint32(600 + i)].x)) == i for i in range(3))
+        try:
+            sim.remove(1); okv = False
+        except RuntimeError:
+            pass
+        if not okv or sim.N != 12:
+            c.violation("C14:entry:add_variation", "after three add_variation calls: N=%d N_var=%d N_real=%d" % (sim.N, sim.N_var, sim.N_real), {})
+        for seed in (None, 7):
+            sim = rebound.Simulation()
+            for i in range(3):
+                sim.add(m=1.0 if i == 0 else 1e-3, x=float(i), vy=(1.0 / i ** 0.5 if i else 0.0), hash=600 + i)
+            sim.init_megno(seed=seed) if seed is not None else sim.init_megno()
+            if sim.N != 6 or sim.N_var != 3 or int(round(sim.particles[ctypes.c_uint32(602)].x)) != 2:
+                c.violation("C14:entry:init_megno", "after init_megno(seed=%r): N=%d N_var=%d" % (seed, sim.N, sim.N_var), {})
+        EXERCISED.update(["reb_simulation_init_megno", "reb_simulation_init_megno_seed", "Simulation.init_megno"])
+        # Simulation.update_tree, Simulation.particles deleter
+        sim = rebound.Simulation(); sim.configure_box(10.); sim.collision = "tree"
+        for i in range(4):
+            sim.add(m=1.0, x=i - 1.5, y=0.1 * i, hash=700 + i)
+        sim.remove(1, keep_sorted=False); sim.update_tree(); EXERCISED.update(["Simulation.update_tree", "reb_simulation_update_tree"])
+        if sim.N != 3 or sorted(p.hash.value for p in sim.particles) != [700, 702, 703]:
+            c.violation("C14:entry:update_tree", "remove(1, keep_sorted=False) + update_tree leaves hashes %s" % sorted(p.hash.value for p in sim.particles), {})
+        # Particle.orbit (asks reb_simulation_particle_index whether it is particle 0), Simulation.update_units (reb_hash of the unit names)
+        sim = rebound.Simulation()
+        sim.add(m=1.0); sim.add(m=1e-3, a=1.0, hash=801); sim.add(m=1e-3, a=2.0, hash=802)
+        o_ = sim.particles[ctypes.c_uint32(802)].orbit()
+        try:
+            sim.particles[0].orbit(); bad0 = True
+        except ValueError:
+            bad0 = False
+        if abs(o_.a - 2.0) > 1e-9 or bad0:
+            c.violation("C14:entry:Particle.orbit", "orbit() of the particle found by hash 802 has a=%r; orbit() of particle 0 raises: %s" % (o_.a, not bad0), {})
+        sim = rebound.Simulation()
+        sim.units = ("AU", "yr", "Msun")
+        u_ = sim.units
+        if (u_["length"], u_["time"], u_["mass"]) != ("au", "yr", "msun") or sim.python_unit_l != rebound.hash("au").value:
+            c.violation("C14:entry:update_units", "sim.units = ('AU','yr','Msun') reads back as %s" % (u_,), {})
+        EXERCISED.update(["Particle.orbit", "Simulation.update_units"])
+        # built-in data set through sim.add(str) (no network)
+        sim = rebound.Simulation(); sim.add("outer solar system")
+        if sim.N != 6 or any(p.hash.value == 0 for p in sim.particles) and False:
+            c.violation("C14:entry:add_dataset", "sim.add('outer solar system') gives N=%d" % sim.N, {})
+        dims["python:add_builtin_dataset"] = 1
+    if mr is not None:
+        L = ["new 0 0 0 0", "addfmt 5 1.0 0", "addfmt 6 0.001 1.5", "addfmt 7 0.001 2.5", "get 6", "rmh 6 1", "addplummer 40", "get 7", "rm 3 0", "get 5"]
+        res = mr.run_text(L, timeout=300)
+        o = [x.split() for x in res["out"]]
+        okh = (not res["bad"]) and len(o) == len(L) and [x[1] for x in o] == ["0", "1", "2", "3", "3", "2", "42", "42", "41", "41"] \
+            and o[4][0] == "1" and o[7][0] == "1" and o[9][0] == "0" and all(x[4] == "0" for x in o)
+        EXERCISED.update(["reb_simulation_add_fmt", "reb_simulation_add_plummer"])
+        if not okh:
+            c.violation("C14:entry:add_fmt_add_plummer", "reb_simulation_add_fmt / reb_simulation_add_plummer histories: %s %s" % (res["out"], res["report"][:200]), {"lines": L})
+
+
 # ----------------------------------------------------------------------------- cross-cutting dimensions
 INTEGRATORS = {"ias15": 0, "whfast": 1, "leapfrog": 4, "janus": 8, "mercurius": 9, "saba": 10, "eos": 11, "bs": 12, "trace": 25, "none": 7}
 
@@ -1037,6 +1413,37 @@ def side_array_tie(c, mr, mr_valgrind, exe, dims):
             c.violation("F22:trace-current_Ks-misaligned-after-removing-the-last-particle-mid-step",
                         "TRACE current_Ks after removing particle 3 of 4 mid-step: %s, row/column deleted would be %s" % (w[2], new_.strip()),
                         {"harness": "ksprobe 4 3", "impl": w[2], "spec": new_.strip()})
+    # --- TRACE current_Ks when a particle is ADDED mid-step: every (N, size of the encounter); variant = Lean witness (3, encounter {star})
+    nmax = 8 if c.thorough else 5
+    L = ["ksadd %d %d" % (n, e_) for n in range(1, nmax + 1) for e_ in range(0, n + 1)]
+    res = mr.run_text(["new 0 0 0 0"] + L, timeout=600)
+    gotA = {}
+    for l, o in zip(L, [x for x in res["out"] if x.startswith("A ")]):
+        t = o.split()
+        gotA[l] = (int(t[1]), int(t[2]), ",".join(t[3:]))
+    m0, m1 = run_driver(exe, ["ksadd 0 3 1", "ksadd 1 3 1"])
+    w = gotA.get("ksadd 3 1")
+    clears = None if w is None else (True if w[2] == m1.strip() else (False if w[2] == m0.strip() else None))
+    c.cov["variant_detected"]["ksAddClearsColumn"] = clears
+    if res["bad"] or clears is None or len(gotA) != len(L):
+        c.corr_break("TRACE current_Ks add probe: %s" % (res["report"][:300] if res["bad"] else "the result for N=3, encounter={star} (%s) is neither variant of the model" % (w,)))
+    else:
+        model = run_driver(exe, ["ksadd %d %s" % (clears, l.split(" ", 1)[1]) for l in L])
+        nd_ = 0
+        for l, m_ in zip(L, model):
+            n_, e_ = [int(x) for x in l.split()[1:]]
+            c.count(("ksadd", n_, e_), nontrivial=n_ >= 2)
+            if gotA[l][2] != m_.strip() or gotA[l][0] != n_ + 1:
+                nd_ += 1
+                if nd_ == 1:
+                    c.corr_break("TRACE current_Ks after a mid-step add: N=%d encounter=%d: real code %s, model %s" % (n_, e_, gotA[l], m_.strip()),
+                                 {"line": l, "impl": gotA[l], "model": m_})
+        dims["side_arrays:trace_current_Ks_add_all_N_encounter"] = len(L)
+        if not clears:
+            c.violation("F24:trace-midstep-add-leaves-current_Ks-column-unwritten",
+                        "TRACE current_Ks after adding a particle mid-step to 3 particles of which only the star is in the encounter: %s — the cells (1,3) and (2,3) "
+                        "of the new column keep stale content (9 = old entry (2,1); -7 = never written), row/column inserted would be %s" % (w[2], m1.strip()),
+                        {"harness": "ksadd 3 1", "impl": w[2], "spec": m1.strip()})
     # --- MERCURIUS part1: the Lean witness of F21 (safe_mode = 0, one particle added since the last step) under valgrind
     mv = mr_valgrind if mr_valgrind is not None else (mr if not mr.sanitize else None)
     if mv is not None:
@@ -1089,8 +1496,9 @@ def step_history(rng, integ, nops, opts):
     emit("new 0 0 0 %d" % INTEGRATORS[integ])
     emit("set dt %r" % opts.get("dt", 0.01))
     for k, v in opts.items():
-        if k != "dt":
+        if k != "dt" and not k.startswith("_"):
             emit("set %s %r" % (k, v))
+    use_active, massless = opts.get("_nactive", "set") == "set", opts.get("_massless", 1)
     ref = Ref(dict(tree="none", box=False, integrator=integ))
     nxt = [100]
     def add(a=None, m=1e-4):
@@ -1101,9 +1509,12 @@ def step_history(rng, integ, nops, opts):
     def populate():
         ref.add(1, 1, 0)
         emit("addo 1 1.0 0.0 0.0 0.0 0.0 0.0 0.0 0.0", (0, len(ref.ps), ref.active))
-        for _ in range(rng.randint(2, 5)):
-            add(m=0.0 if rng.chance(0.25) else 1e-4)
+        for k_ in range(rng.randint(2, 5)):
+            add(m=0.0 if (massless and (k_ == 1 or rng.chance(0.25))) else 1e-4)
     populate()
+    if use_active:
+        ref.set_active(2)
+        emit("set nactive 2", (0, len(ref.ps), ref.active))
     emit("step 1", (0, len(ref.ps), ref.active))
     # every history: grow after the first step, step, shrink, step, grow beyond the previous maximum, step
     add(); emit("step 1", (0, len(ref.ps), ref.active))
@@ -1113,7 +1524,7 @@ def step_history(rng, integ, nops, opts):
         x = rng.uniform()
         n = len(ref.ps)
         if x < 0.35 or n < 3:
-            add(m=0.0 if rng.chance(0.3) else 1e-4)
+            add(m=0.0 if (massless and rng.chance(0.3)) else 1e-4)
         elif x < 0.60:
             idx = rng.randint(1, n - 1)          # (the central body stays: every integrator must keep stepping)
             ks = rng.randint(0, 1)
@@ -1126,9 +1537,12 @@ def step_history(rng, integ, nops, opts):
             out = ref.remove(i, ks)
             emit("rmh %d %d" % (h, ks), (1 if out in ("removed", "lastRemoved") else 0, len(ref.ps), ref.active))
         elif x < 0.90:
-            k = rng.choice([-1, 1, max(1, n // 2), n])
-            ref.set_active(k)
-            emit("set nactive %d" % k, (0, len(ref.ps), ref.active))
+            if not use_active:
+                add(m=1e-4)
+            else:
+                k = rng.choice([-1, 1, max(1, n // 2), n])
+                ref.set_active(k)
+                emit("set nactive %d" % k, (0, len(ref.ps), ref.active))
         elif x < 0.95:
             emit("rmh 999999 1", (0, len(ref.ps), ref.active))      # unknown hash
             emit("rm %d 1" % (n + 2), (0, len(ref.ps), ref.active))  # out of range
@@ -1141,7 +1555,7 @@ def step_history(rng, integ, nops, opts):
     return lines, want
 
 
-def collision_history(rng, integ, mode, keep_sorted, boundary):
+def collision_history(rng, integ, mode, keep_sorted, boundary, resolver="merge", nactive=None, track=None):
     """the internal callers of reb_simulation_remove_particle: merging collisions and the open boundary"""
     L = ["new 0 0 0 %d" % INTEGRATORS[integ], "set dt 0.02"]
     if mode in (2, 5) or boundary:
@@ -1149,7 +1563,8 @@ def collision_history(rng, integ, mode, keep_sorted, boundary):
     if boundary:
         L.append("set boundary 1")
     if mode:
-        L += ["set collision %d" % mode, "set merge 1", "set keepsorted %d" % keep_sorted, "set trackenergy %d" % rng.randint(0, 1)]
+        L += ["set collision %d" % mode, "set %s 1" % resolver, "set keepsorted %d" % keep_sorted,
+              "set trackenergy %d" % (rng.randint(0, 1) if track is None else track)]
     L.append("addo 1 1.0 0.02 0.0 0.0 0.0 0.0 0.0 0.0")
     h = 100
     for k in range(rng.randint(6, 9)):
@@ -1162,7 +1577,7 @@ def collision_history(rng, integ, mode, keep_sorted, boundary):
             L.append("addo %d 1e-5 0.0 %r 0.5 0.0 3.0 0.0 0.0" % (h, 2.0 + 0.1 * k))     # unbound, leaves the box
         else:
             L.append(planet_line(h, 2.5 + 0.2 * k, 1e-4, 0.01, 0.4 * k))
-    if rng.chance(0.5):
+    if (rng.chance(0.5) if nactive is None else nactive == "set"):
         L.append("set nactive %d" % rng.randint(2, 5))
     L += ["step 1"] * (70 if not boundary else 130)
     if mode in (2, 5):
@@ -1176,6 +1591,9 @@ def collision_history(rng, integ, mode, keep_sorted, boundary):
             kinds[hh] = "s" if hh == 1 else ("u" if (boundary and t[5] == "0.5") else ("p" if t[3] == "0.06" else "s"))
     for hh in sorted(kinds):
         L.append("get %d" % hh)
+    if resolver != "merge":
+        for k in range(6):
+            L.append("get %d" % (900000 + k))      # the fragments added from inside the collision callback
     return L, kinds
 
 
@@ -1184,14 +1602,25 @@ def dims_harness(c, mr, dims, mr_valgrind=None):
     oracle and a plain-list oracle for N and N_active.  ASan does not see reads of uninitialised (freshly realloc'ed)
     side arrays, valgrind does: in the thorough tier the step histories run under both."""
     rng = c.rng.fork()
-    nh = 3 if c.thorough else 1
-    variants = [("default", {}), ("safe_mode0", {"safemode": 0}), ("negative_dt", {"dt": -0.01}), ("testparticle_type1", {"tptype": 1})]
-    for integ in INTEGRATORS:
-        for rep in range(nh):
-            for vname, opts in (variants if (c.thorough or integ in ("whfast", "mercurius", "trace", "ias15")) else variants[:1]):
-                if integ == "none" and vname != "default":
-                    continue
-                o = dict(opts)
+    variants = {"default": {}, "safe_mode0": {"safemode": 0}, "negative_dt": {"dt": -0.01}, "testparticle_type1": {"tptype": 1}}
+    if c.thorough:       # full factorial integrator x variant, both N_active / massless settings alternating, three repetitions
+        plan = [dict(integrator=i_, variant=v_, nactive=["unset", "set"][(k_ + j_) % 2], massless=(k_ + j_ // 2) % 2)
+                for k_ in range(3) for j_, i_ in enumerate(INTEGRATORS) for v_ in variants
+                if PAIRS.admissible("step_history", dict(integrator=i_, variant=v_))]
+        plan += PAIRS.array("step_history", rng)
+    else:                # quick: a seed-rotated half of the covering array
+        plan = [r_ for k_, r_ in enumerate(PAIRS.array("step_history", rng)) if k_ % 2 == c.seed % 2]
+    for i_ in INTEGRATORS:
+        if not any(k_["integrator"] == i_ for k_ in plan):
+            plan.append(dict(integrator=i_, variant="default", nactive="set", massless=1))
+    c.cov["step_history_cases"] = len(plan)
+    for case_ in plan:
+        for _once in (0,):
+            for _once2 in (0,):
+                integ, vname = case_["integrator"], case_["variant"]
+                opts = variants[vname]
+                PAIRS.note("step_history", case_)
+                o = dict(opts, _nactive=case_["nactive"], _massless=case_["massless"])
                 if integ == "whfast":
                     o["coords"] = rng.randint(0, 3)
                 lines, want = step_history(rng, integ, 14 if not c.thorough else 30, o)
@@ -1216,6 +1645,13 @@ def dims_harness(c, mr, dims, mr_valgrind=None):
                                     l, i, g[0], g[1], g[2], exp_rc, exp_n, exp_na); break
                 if not res["bad"] and len(res["out"]) == len(lines):
                     collect_side_queries(integ, lines, res["out"])
+                for l_, n_ in zip(lines, lines[1:]):
+                    if n_.startswith("step"):
+                        kind_ = ("add" if l_.startswith("addo") else "rmall" if l_.startswith("rmall") else "set_nactive" if l_.startswith("set nactive")
+                                 else "invalid" if (l_.startswith("rmh 999999") or (l_.startswith("rm ") and want[lines.index(l_)] and want[lines.index(l_)][0] == 0))
+                                 else "rmh" if l_.startswith("rmh") else ("rm_sorted" if l_.endswith(" 1") else "rm_unsorted") if l_.startswith("rm ") else None)
+                        if kind_:
+                            PAIRS.note("step_adjacency", dict(integrator=integ, op_before_step=kind_))
                 nstruct = sum(1 for l in lines if l.startswith(("rm", "addo")))
                 dims[key] = dims.get(key, 0) + nstruct
                 dims["option:" + vname] = dims.get("option:" + vname, 0) + nstruct
@@ -1269,15 +1705,23 @@ def dims_harness(c, mr, dims, mr_valgrind=None):
                 k_ = "F22:trace-current_Ks-misaligned-after-removing-the-last-particle-mid-step"
             c.violation(k_, "TRACE, direct collisions, merge of the two outermost bodies during a step: " + rep_[:300].replace("\n", " | "),
                         {"harness_lines": L, "report": rep_})
-    # internal removals
-    for integ in ("ias15", "leapfrog", "whfast", "mercurius", "trace", "bs"):
-        for mode, bnd in ((1, False), (4, False), (2, False), (5, False), (0, True)):
-            if not c.thorough and rng.chance(0.5) and not (integ in ("mercurius", "trace") and mode in (1, 0)):
-                continue
-            if integ in ("mercurius", "trace") and mode in (2, 5):
-                continue          # forced keep_sorted + tree: every merge is refused (documented error), nothing to observe
-            ks = rng.randint(0, 1)
-            L, kinds = collision_history(rng, integ, mode, ks, bnd)
+    # internal removals (and additions): collisions resolved by merge / merge + fragment added from inside the callback, open boundary
+    SEARCH = {"direct": (1, False), "line": (4, False), "tree": (2, False), "linetree": (5, False), "boundary_open": (0, True)}
+    rows = PAIRS.array("internal_removal", rng)
+    if not c.thorough:
+        rows = [r_ for k_, r_ in enumerate(rows) if k_ % 2 == c.seed % 2]
+        for need_ in (dict(integrator="trace", search="direct", resolver="merge_addfrag"), dict(integrator="mercurius", search="direct", resolver="addfrag_merge"),
+                      dict(integrator="ias15", search="boundary_open", resolver="merge")):
+            if not any(all(r_[k_] == v_ for k_, v_ in need_.items()) for r_ in rows):
+                rows.append(dict(dict(keep_sorted=1, nactive="unset", track_energy=0), **need_))
+    c.cov["internal_removal_cases"] = len(rows)
+    for case_ in rows:
+        for _once in (0,):
+            integ = case_["integrator"]
+            mode, bnd = SEARCH[case_["search"]]
+            PAIRS.note("internal_removal", case_)
+            ks = case_["keep_sorted"]
+            L, kinds = collision_history(rng, integ, mode, ks, bnd, case_["resolver"], case_["nactive"], case_["track_energy"])
             res = mr.run_text(L, timeout=600)
             key = "internal_removal:" + ("boundary_open" if bnd else "collision_mode_%d" % mode)
             bad, removed = None, 0
@@ -1292,10 +1736,8 @@ def dims_harness(c, mr, dims, mr_valgrind=None):
                     if g[4] != 0:
                         bad = "after %r (line %d) %d live particles are not found under their own hash" % (l, i, g[4]); break
                     if l == "step 1" or l == "tupd":
-                        if prev is not None and g[1] > prev:
+                        if prev is not None and g[1] > prev and case_["resolver"] == "merge":
                             bad = "N grew from %d to %d during %r" % (prev, g[1], l); break
-                        if prev is not None:
-                            removed += prev - g[1]
                         if g[2] > g[1] and mode not in (2, 5):
                             bad = "N_active=%d > N=%d after %r (line %d)" % (g[2], g[1], l, i); break
                         prev = g[1]
@@ -1305,6 +1747,13 @@ def dims_harness(c, mr, dims, mr_valgrind=None):
                 if not bad and gets:
                     nfin = gets[-1][2]
                     found = {hh for hh, rc_, _ in gets if rc_ >= 0}
+                    removed = sum(1 for hh in kinds if hh not in found)
+                    nfrag = sum(1 for hh in found if hh >= 900000)
+                    if case_["resolver"] != "merge":
+                        kk = "midstep_add_from_collision_callback:" + integ
+                        dims[kk] = dims.get(kk, 0) + nfrag
+                        if nfrag < min(6, removed) and not (mode in (2, 5) and ks == 1):
+                            bad = "%d mergers but %d fragments added from inside the callback are found" % (removed, nfrag)
                     if any(rc_ >= nfin for _, rc_, _ in gets):
                         bad = "a lookup returned an index beyond N=%d" % nfin
                     elif len(found) != nfin:
@@ -1325,7 +1774,10 @@ def dims_harness(c, mr, dims, mr_valgrind=None):
             if bad:
                 rep_ = res["report"]
                 k_ = "C14:%s:%s" % (key, integ)
-                if integ == "trace" and "uninitialised" in rep_ and "reb_integrator_trace_interaction_step" in rep_ and "Invalid" not in rep_:
+                if integ == "trace" and case_["resolver"] != "merge" and "uninitialised" in rep_ and "reb_integrator_trace_interaction_step" in rep_ \
+                        and "Invalid" not in rep_:
+                    k_ = "F24:trace-midstep-add-leaves-current_Ks-column-unwritten"
+                elif integ == "trace" and "uninitialised" in rep_ and "reb_integrator_trace_interaction_step" in rep_ and "Invalid" not in rep_:
                     k_ = "F22:trace-current_Ks-misaligned-after-removing-the-last-particle-mid-step"
                 elif integ == "whfast" and (("Invalid write" in rep_ and "reb_particles_transform_inertial_to_jacobi_posvel" in rep_ and "reb_integrator_whfast_part1" in rep_)
                                             or ("null pointer passed as argument 1" in rep_ and "reb_integrator_whfast_init" in rep_)):
@@ -1522,17 +1974,27 @@ def run(c):
     n_py = 300 if c.thorough else 80
     nops = 80 if c.thorough else 70
     histories = []
-    for h in range(n_c):
-        cfg = gen_cfg(c.rng)
+    declare_factors()
+    rows = PAIRS.array("tie_config", c.rng.fork(), extra_ok=lambda k: not (k["api"] == "python" and k["tree"] != "none" and k["box"] == 0)
+                       and not (k["tree"] == "none" and k["boundary"] == "open" and k["box"] == 0))
+    if not c.thorough:
+        rows = [r_ for i, r_ in enumerate(rows) if i % 2 == c.seed % 2]      # seed-rotated slice of the covering array
+    c.cov["tie_config_covering_array_rows"] = len(rows)
+    rows_c = [case_cfg(r_, c.rng) for r_ in rows if r_["api"] == "C"]
+    rows_py = [case_cfg(r_, c.rng) for r_ in rows if r_["api"] == "python"]
+    for h in range(max(n_c, len(rows_c))):
+        cfg = rows_c[h] if h < len(rows_c) else gen_cfg(c.rng)
         hist = run_history(c, rebound, cfg, nops, False, stats, lines, expect, meta, h)
         histories.append((cfg, hist))
         if h < 2:
             c.sample({"api": "C", "cfg": cfg, "first_ops": hist[cfg["bulk"]:cfg["bulk"] + 8]})
-    for h in range(n_py):
-        cfg = gen_cfg(c.rng, python_api=True)
+    for h in range(max(n_py, len(rows_py))):
+        cfg = rows_py[h] if h < len(rows_py) else gen_cfg(c.rng, python_api=True)
         hist = run_history(c, rebound, cfg, nops, True, stats, lines, expect, meta, 100000 + h)
         if h < 2:
             c.sample({"api": "python", "cfg": cfg, "first_ops": hist[cfg["bulk"]:cfg["bulk"] + 8]})
+
+    run_call_shapes(c, rebound, stats, lines, expect, meta)
 
     # ---- directed histories (the model's witnesses and their neighbours) so that every F4 shape is exercised on every run
     directed = [
@@ -1715,6 +2177,32 @@ def run(c):
                 mrv = None
         dims_harness(c, mr, dims, mrv)
         side_array_tie(c, mr, mrv, exe, dims)
+    try:
+        entry_point_smoke(c, rebound, mr, dims)
+    except (Infra, subprocess.TimeoutExpired):
+        raise
+    except Exception as ex:
+        import traceback
+        c.violation("C14:entry-point-smoke-exception:" + type(ex).__name__, "an entry point answered in a way the checker has no case for: %s" % str(ex)[:200],
+                    {"traceback": traceback.format_exc()[-2000:]})
+    # ---- public entry points (extracted from src/rebound.h and rebound/*.py): each one exercised in this run
+    EXERCISED.update(["reb_hash", "hash", "Particles.__setitem__", "Particles.__delitem__", "Particles.__iter__", "Particles.__len__",
+                      "Particles.__getitem__", "Particle.hash"])           # hash tie and dims_container above
+    cfun, pyfun = extract_entry_points()
+    c.cov["entry_points"] = {"C": cfun, "python": pyfun}
+    missing_ep = [e_ for e_ in cfun + pyfun if e_ not in EXERCISED]
+    c.cov["entry_points_exercised"] = len(cfun) + len(pyfun) - len(missing_ep)
+    c.cov["entry_points_extracted"] = len(cfun) + len(pyfun)
+    if len(cfun) < 17 or len(pyfun) < 12:
+        c.broken.append("entry-point extraction found only %d C functions and %d Python methods (expected >= 17 and >= 12)" % (len(cfun), len(pyfun)))
+    if missing_ep:
+        c.broken.append("public entry points that reach the particle bookkeeping but were not exercised: " + ", ".join(missing_ep))
+    # ---- pairwise coverage of the declared factors
+    ps_ = PAIRS.summary()
+    c.cov["pairs"] = ps_
+    if c.thorough and ps_["covered"] < ps_["total"]:
+        c.broken.append("pairwise coverage incomplete in the thorough tier: %d of %d admissible pairs; missing e.g. %s" % (
+            ps_["covered"], ps_["total"], ps_["missing"][:5]))
     dims["roles:N_active_set_in_tie"] = stats["ops"].get("setactive", 0)
     dims["variational_particles_present"] = stats["ops"].get("addvar", 0) + stats["ops"].get("setnvar", 0)
     dims["callback:free_particle_ap_installed"] = sum(stats["ops"].get(k, 0) for k in ("rm", "rmh"))
@@ -1731,7 +2219,8 @@ def run(c):
         "scale:N_up_across_128_and_1024", "scale:N_down_across_1024_and_128", "roles:N_active_set_in_tie", "variational_particles_present",
         "callback:free_particle_ap_installed", "ap_pointer_travels_with_particle", "histories:tree_update_between_ops",
         "histories:mercurius_step_between_ops_in_tie", "scale:allocation_steps_in_tie", "trace_midstep_removal_of_last_particle",
-        "side_arrays:trace_current_Ks_all_N_index", "side_arrays:mercurius_part1_read_before_write"] + [
+        "side_arrays:trace_current_Ks_all_N_index", "side_arrays:trace_current_Ks_add_all_N_encounter",
+        "side_arrays:mercurius_part1_read_before_write"] + [
         "side_arrays:allocation_after_step:" + k for k in SIDE_KIND] + [
         "step_with_N_1_and_N_0:" + k for k in ("whfast", "saba", "ias15", "leapfrog", "janus", "mercurius", "eos", "bs", "trace")]
     for k in required:
